@@ -4,6 +4,6 @@ namespace Drv.C34
 open Line HostileDrv
 
 def families : List (String × (Case → Verdict)) :=
-  [("c34_codec", codec), ("c34_dispatch", dispatch), ("c34_conn", c34conn), ("c34_full", c34full)]
+  [("c34_codec", codec), ("c34_dispatch", dispatch), ("c34_conn", c34conn), ("c34_full", c34full), ("c34_hrr2", c34hrr2)]
 
 end Drv.C34
